@@ -65,6 +65,10 @@ Trim == /\ pc = "trim"
         /\ pc' = "done" /\ UNCHANGED <<x, term, result, prev, fact, nn>>
 Next == Pick \/ Start \/ Term \/ Invert \/ Trim
 Spec == Init /\ [][Next]_vars
+\* the series loop has no bound in the code; under weak fairness every behaviour must reach "done" (a loop still running
+\* after NTERMS terms has no successor in the model and violates this)
+FairSpec == Spec /\ WF_vars(Next)
+EventuallyDone == <>(pc = "done")
 
 Terminates == nn <= NTERMS
 Increasing == [][pc = "loop" /\ pc' = "loop" => DCmp(result, result') <= 0]_vars
